@@ -29,7 +29,7 @@ func init() {
 }
 
 func c05Pool(tier string) []string {
-	p := []string{"a.x", "b.x", "z.y", "-a.x", ".h.x", "d/a.x", "d/.h.x", ".hd/a.x", "d/.hd/a.x", "d/e/a.x"}
+	p := []string{"a.x", "b.x", "z.y", "-a.x", ".h.x", "d/a.x", "d/.h.x", ".hd/a.x", "d/.hd/a.x", "d/e/a.x", "dx/a.x"}
 	if tier == "thorough" {
 		p = append(p, "~t.x", "d/e/.h.x", "e/a.x")
 	}
@@ -45,13 +45,25 @@ func c05Patterns(tier string) []string {
 	return p
 }
 
+// c05Text: one task that lists every pattern as a dependency (in the given order)
+// and as an output (in reverse order), so the order in which the patterns are
+// expanded is fixed by the text and not by Go's map iteration.
 func c05Text(patterns []string) string {
-	var sb strings.Builder
+	q := make([]string, len(patterns))
+	r := make([]string, len(patterns))
 	for i, p := range patterns {
-		// the pattern is a dependency of one task and an output of another
-		fmt.Fprintf(&sb, "task d%s(\"%s\") {\n}\n\ntask o%s() -> \"%s\" {\n}\n\n", letters(i), p, letters(i), p)
+		q[i] = `"` + p + `"`
+		r[len(patterns)-1-i] = `"` + p + `"`
 	}
-	return sb.String()
+	return "task daa(" + strings.Join(q, ", ") + ") -> (" + strings.Join(r, ", ") + ") {\n}\n"
+}
+
+func reversed(l []string) []string {
+	out := make([]string, len(l))
+	for i, x := range l {
+		out[len(l)-1-i] = x
+	}
+	return out
 }
 
 func letters(i int) string { return string(rune('a'+i/26)) + string(rune('a'+i%26)) }
@@ -121,6 +133,7 @@ func c05Tree(sb *proj.Sandbox, paths []string) {
 func c05Eval(sb *proj.Sandbox, paths, patterns []string, text string, res *c05Result) {
 	c05Tree(sb, paths)
 	res.Trees++
+	os.RemoveAll(filepath.Join(sb.Dir, ".spok"))
 	tree, err := parser.New(text).Parse()
 	if err != nil {
 		ev.Fatal("c05 spokfile does not parse: %v", err)
@@ -128,8 +141,8 @@ func c05Eval(sb *proj.Sandbox, paths, patterns []string, text string, res *c05Re
 	report := func(pat, cls, what string) {
 		res.Outcomes["violation:"+cls]++
 		if len(res.Viol) < 40 {
-			res.Viol = append(res.Viol, ev.Violation{Engine: "cfgmc-c05", Key: fmt.Sprintf("tree=%v pattern=%s", paths, pat), Class: cls,
-				What: fmt.Sprintf("tree %v pattern %q: %s", paths, pat, what), Case: map[string]any{"paths": paths, "pattern": pat}})
+			res.Viol = append(res.Viol, ev.Violation{Engine: "cfgmc-c05", Key: fmt.Sprintf("dir=%s tree=%v pattern=%s", filepath.Base(sb.Dir), paths, pat), Class: cls,
+				What: fmt.Sprintf("project dir %q tree %v pattern %q: %s", filepath.Base(sb.Dir), paths, pat, what), Case: map[string]any{"paths": paths, "pattern": pat, "dir": filepath.Base(sb.Dir), "text": text}})
 		}
 	}
 	var first map[string][]string
@@ -216,8 +229,9 @@ func c05Worker(args []string) {
 	lo, _ := strconv.Atoi(args[1])
 	hi, _ := strconv.Atoi(args[2])
 	pl, pats := c05Pool(tier), c05Patterns(tier)
-	text := c05Text(pats)
-	sb := proj.NewSandbox(os.Getenv("VERIF_SANDBOX"))
+	text, textRev := c05Text(pats), c05Text(reversed(pats))
+	// two project directories: a plain one and one whose own path contains glob meta characters
+	sbs := []*proj.Sandbox{proj.NewSandbox(filepath.Join(os.Getenv("VERIF_SANDBOX"), "plain")), proj.NewSandboxNamed(filepath.Join(os.Getenv("VERIF_SANDBOX"), "meta"), "p[x]{a,b}*?")}
 	res := c05Result{Outcomes: map[string]int64{}}
 	prog := pool.OpenProgress()
 	prog.Watchdog(60e9)
@@ -229,9 +243,25 @@ func c05Worker(args []string) {
 			}
 		}
 		prog.Announce(int64(m), 0)
-		c05Eval(sb, paths, pats, text, &res)
+		for _, s := range sbs {
+			c05Eval(s, paths, pats, text, &res)
+			c05Eval(s, paths, pats, textRev, &res)
+		}
 	}
 	os.Stdout.Write(pool.MustJSON(res))
+}
+
+// c05PatternsIn recovers the pattern list of a generated spokfile text.
+func c05PatternsIn(text string) []string {
+	var out []string
+	seen := map[string]bool{}
+	for _, part := range strings.Split(text, `"`) {
+		if strings.Contains(part, "*") && !strings.ContainsAny(part, "(){}\n") && !seen[part] {
+			seen[part] = true
+			out = append(out, part)
+		}
+	}
+	return out
 }
 
 func c05Check(tier string) int {
@@ -283,7 +313,7 @@ func c05Check(tier string) int {
 	run.Set("outcomes", total.Outcomes)
 	run.Set("pool", pl)
 	run.Set("patterns", pats)
-	run.Set("rule", "states = directory trees (every subset of the path pool); transitions = (tree, pattern, expansion round) glob expansions through file.New + SpokFile.Run + SpokFile.Globs, each pattern used as dependency and as output; three rounds per tree (fresh, fresh with .spok present, same SpokFile twice); reference = doublestar.Match over a full walk minus paths starting with a dot; non-trivial = (tree, pattern) pairs whose reference denotation is non-empty")
+	run.Set("rule", "each tree is built in two project directories (a plain name and a name containing the glob meta characters [ ] { } * ?) and expanded with the pattern list in both orders; states = directory trees (every subset of the path pool); transitions = (tree, pattern, expansion round) glob expansions through file.New + SpokFile.Run + SpokFile.Globs, each pattern used as dependency and as output; three rounds per tree (fresh, fresh with .spok present, same SpokFile twice); reference = doublestar.Match over a full walk minus paths starting with a dot; non-trivial = (tree, pattern) pairs whose reference denotation is non-empty")
 	run.Assumes("doublestar.Match is the meaning of a pattern", "tmpfs ReadDir order is name order like the user's filesystems as seen through os.DirFS (fs.ReadDir sorts)")
 	return run.Finish()
 }
@@ -295,10 +325,18 @@ func c05Replay(path string) int {
 	var paths []string
 	json.Unmarshal(pool.MustJSON(v.Case["paths"]), &paths)
 	pat, _ := v.Case["pattern"].(string)
-	sb := proj.NewSandbox(filepath.Join(pool.Scratch, "replay"))
+	dir, _ := v.Case["dir"].(string)
+	text, _ := v.Case["text"].(string)
+	if dir == "" {
+		dir = "p"
+	}
+	if text == "" {
+		text = c05Text([]string{pat})
+	}
+	sb := proj.NewSandboxNamed(filepath.Join(pool.Scratch, "replay"), dir)
 	res := c05Result{Outcomes: map[string]int64{}}
-	fmt.Printf("replaying C05: tree %v pattern %q\n", paths, pat)
-	c05Eval(sb, paths, []string{pat}, c05Text([]string{pat}), &res)
+	fmt.Printf("replaying C05: project dir %q tree %v pattern %q\n", dir, paths, pat)
+	c05Eval(sb, paths, c05PatternsIn(text), text, &res)
 	if len(res.Viol) > 0 {
 		fmt.Printf("VIOLATION property=C05 replay=%s\n  %s\n", path, res.Viol[0].What)
 		return 1
